@@ -111,19 +111,29 @@ def m2(prog, ctx):
     loop = loop[0]
     gate_field = None
     n = 0
+    # roles, not names: the record just loaded, and its resolved counterpart (the object whose field is tested for `suspended`)
+    rv = [st_.targets[0].id for st_ in walk_no_nested(loop) if isinstance(st_, ast.Assign) and isinstance(st_.targets[0], ast.Name)
+          and "get_object()" in src(st_.value)]
+    if len(rv) != 1:
+        raise AnalysisError("ReadAssignmentLoader.get_next: the loaded record variable was not identified")
+    RV = rv[0]
+    sm = [re.search(r"(\w+)\.(\w+) == ReadAssignmentType\.suspended", src(t_)) for i_ in ast.walk(loop) if isinstance(i_, ast.If) for t_ in flow.atoms(i_.test)]
+    sm = [x for x in sm if x]
+    XV = sm[0].group(1) if sm else "?"
     for p in flow.block_paths(loop.body, what="get_next"):
         n += 1
-        appended = any(isinstance(st, ast.Expr) and "assignment_storage.append(read_assignment)" in src(st) for st in p.stmts())
-        conds = [(src(t), pol) for t, pol in p.conds()]
-        in_dict = any("in self.multimapped_chr_dict" in t and pol for t, pol in conds)
+        appended = any(isinstance(st, ast.Expr) and isinstance(st.value, ast.Call) and isinstance(st.value.func, ast.Attribute)
+                       and st.value.func.attr == "append" and [src(a) for a in st.value.args] == [RV] for st in p.stmts())
+        conds = [(src(a_), ap_) for t, pol in p.conds() for a_, ap_ in flow.conjuncts(t, pol)]
+        in_dict = any(t == "%s.read_id in self.multimapped_chr_dict" % RV and pol for t, pol in conds)
         susp = [(t, pol) for t, pol in conds if "ReadAssignmentType.suspended" in t]
         for t, pol in susp:
-            m = re.search(r"resolved_assignment\.(\w+) == ReadAssignmentType\.suspended", t)
+            m = re.search(r"%s\.(\w+) == ReadAssignmentType\.suspended" % re.escape(XV), t)
             if m:
                 gate_field = m.group(1)
         if in_dict and appended:
             # must have passed: resolved found and not suspended
-            found = any(t == "not resolved_assignment" and not pol for t, pol in conds)
+            found = any(t == XV and pol for t, pol in conds)
             not_susp = any(not pol for t, pol in susp)
             if not (found and not_susp):
                 ctx.fail("M2", loop, g._qualname, "assignment_storage.append(read_assignment)",
@@ -137,8 +147,9 @@ def m2(prog, ctx):
     # record matched on (assignment_id, chr_id)
     def _both_keys(test):
         t = src(test)
-        m1 = re.search(r"(\w+)\.assignment_id == read_assignment\.assignment_id|read_assignment\.assignment_id == (\w+)\.assignment_id", t)
-        m2_ = re.search(r"(\w+)\.chr_id == read_assignment\.chr_id|read_assignment\.chr_id == (\w+)\.chr_id", t)
+        R_ = re.escape(RV)
+        m1 = re.search(r"(\w+)\.assignment_id == %s\.assignment_id|%s\.assignment_id == (\w+)\.assignment_id" % (R_, R_), t)
+        m2_ = re.search(r"(\w+)\.chr_id == %s\.chr_id|%s\.chr_id == (\w+)\.chr_id" % (R_, R_), t)
         return bool(m1 and m2_ and (m1.group(1) or m1.group(2)) == (m2_.group(1) or m2_.group(2))) and \
             all(pol for _a, pol in flow.conjuncts(test, True)) and len(flow.conjuncts(test, True)) >= 2
     match = [c for c in ast.walk(loop) if isinstance(c, ast.If) and _both_keys(c.test)]
@@ -148,12 +159,34 @@ def m2(prog, ctx):
         ctx.ok("M2", "%s:%d" % (DSP, match[0].lineno), "resolved record matched on (assignment_id, chr_id)")
     # verdict fields copied back
     copied = {dotted(s.targets[0]).split(".")[-1] for s in ast.walk(loop) if isinstance(s, ast.Assign)
-              and (dotted(s.targets[0]) or "").startswith("read_assignment.") and "resolved_assignment." in src(s.value)}
+              and (dotted(s.targets[0]) or "").startswith(RV + ".") and (XV + ".") in src(s.value)}
     for fld in ("assignment_type", "gene_assignment_type", "multimapper"):
         if fld not in copied:
             ctx.fail("M2", loop, g._qualname, fld, "resolved %s is not copied onto the loaded assignment" % fld)
         else:
             ctx.ok("M2", "%s:%d" % (DSP, loop.lineno), "resolved %s re-applied" % fld)
+    # the verdict of EVERY alignment of a resolved read reaches its chromosome's file: the loop that sorts the resolver's output by
+    # chromosome files each record unconditionally (a loser that is not written is not found by the loader of a chromosome that holds
+    # only losers of the read - it then keeps its original assignment)
+    rm = prog.func(DSP, "DatasetProcessor.resolve_multimappers")
+    res_names = {st_.targets[0].id for st_ in walk_no_nested(rm) if isinstance(st_, ast.Assign) and isinstance(st_.targets[0], ast.Name)
+                 and isinstance(st_.value, ast.Call) and (call_name(st_.value) or "").endswith(".resolve")}
+    filed = []
+    for lp in [l for l in walk_no_nested(rm) if isinstance(l, ast.For) and isinstance(l.iter, ast.Name) and l.iter.id in res_names]:
+        for c in ast.walk(lp):
+            if isinstance(c, ast.Call) and isinstance(c.func, ast.Attribute) and c.func.attr == "append" and [src(a) for a in c.args] == [src(lp.target)] \
+                    and isinstance(c.func.value, ast.Subscript) and src(c.func.value.slice) == src(lp.target) + ".chr_id":
+                filed.append((lp, c))
+    if len(filed) != 1:
+        ctx.fail("M2", rm, rm._qualname, "records filed per chromosome", "the resolver's output is not filed per chromosome by one loop over all of it")
+    else:
+        lp, c = filed[0]
+        gs = [g for g in flow.guards_of(c, stop=lp)]
+        if gs:
+            ctx.fail("M2", c, rm._qualname, src(c), "an alignment of a resolved read is written to its chromosome's verdict file only if %s: the "
+                     "chromosome task that holds an unwritten (losing) alignment finds no verdict for it" % " and ".join(g.text() for g in gs))
+        else:
+            ctx.ok("M2", "%s:%d" % (DSP, c.lineno), "every alignment of a resolved read (kept or suspended) is written to its chromosome's verdict file")
     # who produces stage-2 assignment lists: NormalTmpFileAssignmentLoader only inside ReadAssignmentLoader
     users = []
     for m, q, f in prog.all_functions():
@@ -276,7 +309,15 @@ def m4(prog, ctx):
                         if isinstance(t, ast.Attribute) and isinstance(t.value, ast.Name) and t.value.id == obj:
                             out.add(t.attr)
         return out
-    a_init, a_des, a_abr = attrs(init, "self"), attrs(des, "read_assignment"), attrs(abr, "read_assignment")
+    def built_obj(f):
+        """the local a classmethod builds and returns: assigned from cls.__new__(cls) / cls(...)"""
+        for st_ in walk_no_nested(f):
+            if isinstance(st_, ast.Assign) and isinstance(st_.targets[0], ast.Name) and isinstance(st_.value, ast.Call) \
+                    and (call_name(st_.value) or "") in ("cls.__new__", "cls", "BasicReadAssignment.__new__", "object.__new__"):
+                return st_.targets[0].id
+        raise AnalysisError("%s: the object under construction was not identified" % f._qualname)
+    O_des, O_abr = built_obj(des), built_obj(abr)
+    a_init, a_des, a_abr = attrs(init, "self"), attrs(des, O_des), attrs(abr, O_abr)
     for name, a, f in (("deserialize", a_des, des), ("deserialize_from_read_assignment", a_abr, abr)):
         if a != a_init:
             ctx.fail("M4", f, f._qualname, "fields %s" % sorted(a ^ a_init),
@@ -290,8 +331,14 @@ def m4(prog, ctx):
     rops = wire.reader_ops(wc, abr)
     # the temp `exons` must be the wire position of ReadAssignment.exons
     exon_pos = None
+    # the local that start/end are taken from in the abridged reader
+    ex_local = None
     for st in walk_no_nested(abr):
-        if isinstance(st, ast.Assign) and src(st.targets[0]) == "exons":
+        if isinstance(st, ast.Assign) and src(st.targets[0]) == O_abr + ".start":
+            mm = re.match(r"^(\w+)\[0\]\[0\]$", src(st.value))
+            ex_local = mm.group(1) if mm else None
+    for st in walk_no_nested(abr):
+        if isinstance(st, ast.Assign) and ex_local and src(st.targets[0]) == ex_local:
             for i, (_o, _f, node) in enumerate(rops):
                 if node is st.value:
                     exon_pos = i
@@ -300,11 +347,12 @@ def m4(prog, ctx):
                  "(position %s holds %s)" % (exon_pos, wops[exon_pos][1] if exon_pos is not None and exon_pos < len(wops) else None))
     else:
         ctx.ok("M4", "%s:%d" % (ISO, abr.lineno), "abridged reader takes start/end from wire position #%d = exons" % exon_pos)
-    want = {"start": ("read_assignment.exons[0][0]", "exons[0][0]"), "end": ("read_assignment.exons[-1][1]", "exons[-1][1]")}
+    P_init = init.args.args[1].arg if len(init.args.args) > 1 else "read_assignment"
+    want = {"start": ("%s.exons[0][0]" % P_init, "%s[0][0]" % ex_local), "end": ("%s.exons[-1][1]" % P_init, "%s[-1][1]" % ex_local)}
     for fld, (wi, wa) in want.items():
         vi = [src(s.value) for s in walk_no_nested(init) if isinstance(s, ast.Assign) and src(s.targets[0]) == "self." + fld
               and not isinstance(s.value, ast.Constant)]
-        va = [src(s.value) for s in walk_no_nested(abr) if isinstance(s, ast.Assign) and src(s.targets[0]) == "read_assignment." + fld]
+        va = [src(s.value) for s in walk_no_nested(abr) if isinstance(s, ast.Assign) and src(s.targets[0]) == O_abr + "." + fld]
         if vi != [wi] or va != [wa]:
             ctx.fail("M4", abr, abr._qualname, "%s: %s / %s" % (fld, vi, va), "%s is derived differently by the two constructors" % fld)
         else:
@@ -343,7 +391,7 @@ def m4(prog, ctx):
         text = "\n".join(out)
         return text
     li = summary_block(init, "self")
-    la = summary_block(abr, "read_assignment")
+    la = summary_block(abr, O_abr)
 
     def same_shared_helper():
         """both constructors obtain the three fields from one and the same helper of the class (then they cannot differ)"""
